@@ -5,7 +5,7 @@ from .common import *
 ID = "C18"
 PROP_FILE = "C18"
 RULE = ("every variant of every enumeration encoded (encty) ; for string enumerations every valid spelling, every single-character substitution/deletion/"
-        "insertion, case change, prefix and one-character extension of a valid spelling, the empty string and seeded random strings decoded (decty); for "
+        "insertion, case change, prefix, one-character extension and extension by 1..23 (and 100) characters of each UTF-8 width of a valid spelling, the empty string and seeded random strings decoded (decty); for "
         "numeric enumerations all 256 byte values plus integers at the encoding thresholds up to 2^64-1 in every head width (decty); ControlByte::try_from and "
         "CredentialProtectionPolicy::try_from over all 256 bytes; every status code name; permission and flag bits. Non-trivial = distinct probe")
 ASSUMPTIONS = []
@@ -47,6 +47,13 @@ def neighbours(s, rng):
         out.add(s[:i] + s[i + 1 :])
         out.add(s[:i] + ("X" if s[i] != "X" else "Y") + s[i + 1 :])
         out.add(s[:i] + s[i].swapcase() + s[i + 1 :])
+    # extensions by characters of every UTF-8 width, so that every total byte length from len+1 to beyond any plausible internal buffer
+    # is reached on and off a character boundary (a lossy intermediate buffer would cut the extension away again)
+    for ch in ("a", "\u00e9", "\u20ac", "\U0001F600"):
+        for c in range(1, 24):
+            out.add(s + ch * c)
+        out.add(ch + s)
+        out.add(s + ch * 100)
     return sorted(out)
 
 
